@@ -683,13 +683,13 @@ theorem default_app_aliases :
     (∀ h ∈ ["Globals", "ombott"], ∀ n ∈ ["route", "on_route", "error", "request", "response", "app"],
       aliasTarget h n = some World.defaultApp) ∧
     (∀ (ctx : Ctx) (w : World) (h n : String) (op : Op), aliasTarget h n = some World.defaultApp →
-      (Target.alias h n).admits op = true →
+      (Target.alias h n).accepts op = true →
       World.step ctx w (.alias h n) op = World.step ctx w (.app World.defaultApp) op) := by
   refine ⟨by decide, by decide, ?_⟩
   intro ctx w h n op ht ha
   have ha' : (aliasMethod h n == some op.methodName) = true := ha
   unfold World.step
-  simp only [ha', Target.index, ht, Target.admits, Bool.not_true, Bool.false_eq_true, if_false]
+  simp only [ha', Target.index, ht, Target.accepts, Bool.not_true, Bool.false_eq_true, if_false]
 
 /-- the decisions of `run()`: a non-callable application is refused before anything else; without an application the
 default one is served; the server is quiet if it was or `quiet=True` was passed, and the banner is written exactly
